@@ -7,6 +7,8 @@ import Got.Lemmas.SortHeap
 import Got.Lemmas.SortPivot
 import Got.Lemmas.SortQuick
 import Got.Lemmas.SortCostQuick
+import Got.Lemmas.SortAstAll
+import Got.Lemmas.SortAstPivotSem
 /- property theorems of C15 (only theorems + non-vacuity examples live here) -/
 open Got.Model.Sort Got.Model.SortUnique
 open Got.Lemmas.Sort (StrictWeak)
@@ -248,3 +250,225 @@ theorem C15_comparisons_doPivot_heapSort {K V : Type} (less : LessFn K V) (a b k
     split at this <;> omega
   · intro h
     exact Got.Lemmas.Sort.heapSort_cost less a b k s h
+
+/-! ## the translated source
+
+`Got/Generated/AstSortxSort.lean` holds the MiniGoSort terms (deep embedding `Got/Model/MiniGoSort.lean`) that
+tools/srcfacts/minigo_sort.go regenerates on EVERY run from /repo/sortx/zfuncversion.go (insertionSort_func,
+siftDown_func, heapSort_func, medianOfThree_func, doPivot_func, quickSort_func) and /repo/sortx/sort.go (maxDepth), so the
+theorems below are re-checked against what the code says now.  `F.run (sortWorld less) prog fuel args s` interprets the
+generated term `F` (calls resolved in the generated program `prog`) with `data.Less`/`data.Swap` acting on the model
+state `s : St K V` exactly like the model (same log); `some (results, s')` = it terminated within `fuel`.
+"refines_model": for every fuel above some bound the interpretation returns exactly the model function's final state —
+both slices AND the complete Less/Swap log — so every C15 theorem about the model function is a theorem about the
+translated source.  Index hypotheses `< 2^62` are what SliceBy guarantees (indices are within slice lengths).
+`sliceByAst` = SliceBy with maxDepth and quickSort_func interpreted, the glue (`min` of the lengths, `length <= 1` guard)
+transcribed by hand (Got/Model/SortAstWorld.lean); the driver mode `drv_sort ast` prints it for every case of the
+correspondence. -/
+section TranslatedSource
+open Got.Model.MiniGoSort Got.Model.SortAst
+
+/-- The translator accepted all seven functions: every construct of their current source is inside the MiniGoSort
+    fragment (otherwise the generated body is empty and the note names the construct). -/
+
+theorem C15_translation_in_fragment :
+    Got.Generated.AstSortxSort.notes = ["ok", "ok", "ok", "ok", "ok", "ok", "ok"] := by decide
+
+/-- **Translator tie, medianOfThree_func**: the translated source computes the model's `medianOfThree`. -/
+theorem C15_translated_source_medianOfThree_refines_model {K V : Type} (less : LessFn K V) (m1 m0 m2 : Nat)
+    (h1 : m1 < 2 ^ 62) (h0 : m0 < 2 ^ 62) (h2 : m2 < 2 ^ 62) (s : St K V) :
+    ∃ f0, ∀ fuel, f0 ≤ fuel →
+      Got.Generated.AstSortxSort.medianOfThree_func.run (sortWorld less) Got.Generated.AstSortxSort.prog fuel
+        [(m1 : Int), (m0 : Int), (m2 : Int)] s = some ([], medianOfThree less m1 m0 m2 s) := by
+  refine Got.Lemmas.SortAst.run_of_FnRuns (vs := []) rfl rfl ?_
+  have e : List.map wrap [(m1 : Int), (m0 : Int), (m2 : Int)] = [(m1 : Int), (m0 : Int), (m2 : Int)] := by
+    simp (disch := omega) only [List.map, Got.Lemmas.SortAst.wrap_eq]
+  rw [e]
+  exact Got.Lemmas.SortAst.medianOfThree_runs _ less m1 m0 m2 h1 h0 h2 s
+
+example : (Got.Generated.AstSortxSort.medianOfThree_func.run (sortWorld (stdLess (fun (x y : Int) => decide (x < y))))
+    Got.Generated.AstSortxSort.prog 20 [0, 1, 2] ({ keys := #[5, 3, 1], vals := #["a", "b", "c"], log := [] } : St Int String)).map
+      (fun r => (r.2.keys, r.2.vals)) = some (#[3, 1, 5], #["b", "c", "a"]) := by decide
+
+/-- **Translator tie, maxDepth**: the translated source returns the model's `maxDepth n` (and touches nothing), in any world. -/
+theorem C15_translated_source_maxDepth_refines_model {σ : Type} (W : World σ) (n : Nat) (hn : n < 2 ^ 62) (w : σ) :
+    ∃ f0, ∀ fuel, f0 ≤ fuel →
+      Got.Generated.AstSortxSort.maxDepth.run W Got.Generated.AstSortxSort.prog fuel [(n : Int)] w =
+        some ([((maxDepth n : Nat) : Int)], w) := by
+  refine Got.Lemmas.SortAst.run_of_FnRuns rfl rfl ?_
+  have e : List.map wrap [(n : Int)] = [(n : Int)] := by
+    simp (disch := omega) only [List.map, Got.Lemmas.SortAst.wrap_eq]
+  rw [e]
+  exact Got.Lemmas.SortAst.maxDepth_runs W _ n hn w
+
+/-- **Translator tie, insertionSort_func**: the translated source (two nested `for` loops, `j > a && data.Less(j, j-1)`)
+    computes the model's `insertionSort`. -/
+theorem C15_translated_source_insertionSort_refines_model {K V : Type} (less : LessFn K V) (a b : Nat)
+    (ha : a < 2 ^ 62) (hb : b < 2 ^ 62) (s : St K V) :
+    ∃ f0, ∀ fuel, f0 ≤ fuel →
+      Got.Generated.AstSortxSort.insertionSort_func.run (sortWorld less) Got.Generated.AstSortxSort.prog fuel
+        [(a : Int), (b : Int)] s = some ([], insertionSort less a b s) := by
+  refine Got.Lemmas.SortAst.run_of_FnRuns (vs := []) rfl rfl ?_
+  have e : List.map wrap [(a : Int), (b : Int)] = [(a : Int), (b : Int)] := by
+    simp (disch := omega) only [List.map, Got.Lemmas.SortAst.wrap_eq]
+  rw [e]
+  exact Got.Lemmas.SortAst.insertionSort_runs _ less a b ha hb s
+
+/-- **Translator tie, siftDown_func** (`for { … break … return … }`): the translated source computes the model's `siftDown`. -/
+theorem C15_translated_source_siftDown_refines_model {K V : Type} (less : LessFn K V) (lo hi first : Nat)
+    (hlo : lo < 2 ^ 62) (hhi : hi < 2 ^ 62) (hf : first + hi < 2 ^ 62) (s : St K V) :
+    ∃ f0, ∀ fuel, f0 ≤ fuel →
+      Got.Generated.AstSortxSort.siftDown_func.run (sortWorld less) Got.Generated.AstSortxSort.prog fuel
+        [(lo : Int), (hi : Int), (first : Int)] s = some ([], siftDown less hi first lo s) := by
+  refine Got.Lemmas.SortAst.run_of_FnRuns (vs := []) rfl rfl ?_
+  have e : List.map wrap [(lo : Int), (hi : Int), (first : Int)] = [(lo : Int), (hi : Int), (first : Int)] := by
+    simp (disch := omega) only [List.map, Got.Lemmas.SortAst.wrap_eq]
+  rw [e]
+  exact Got.Lemmas.SortAst.siftDown_runs _ less lo hi first hlo hhi hf s
+
+/-- **Translator tie, heapSort_func** (truncated `(hi-1)/2`, two descending loops, calls of siftDown_func resolved in the
+    generated program): the translated source computes the model's `heapSort`. -/
+theorem C15_translated_source_heapSort_refines_model {K V : Type} (less : LessFn K V) (a b : Nat)
+    (hab : a ≤ b) (hb : b < 2 ^ 62) (s : St K V) :
+    ∃ f0, ∀ fuel, f0 ≤ fuel →
+      Got.Generated.AstSortxSort.heapSort_func.run (sortWorld less) Got.Generated.AstSortxSort.prog fuel
+        [(a : Int), (b : Int)] s = some ([], heapSort less a b s) :=
+  Got.Lemmas.SortAst.heapSort_translated less a b hab hb s
+
+/-- headline property on the translated source: insertionSort_func as translated sorts the range -/
+theorem C15_translated_source_insertionSort_sorted {K V : Type} {lt : K → K → Bool} (sw : StrictWeak lt) (a b : Nat)
+    (s : St K V) (ha : a < 2 ^ 62) (hb : b ≤ s.keys.size) (hb62 : b < 2 ^ 62) :
+    ∃ f0, ∀ fuel, f0 ≤ fuel → ∃ s',
+      Got.Generated.AstSortxSort.insertionSort_func.run (sortWorld (stdLess lt)) Got.Generated.AstSortxSort.prog fuel
+        [(a : Int), (b : Int)] s = some ([], s') ∧
+      ∀ i j x y, a ≤ i → i < j → j < b → s'.keys[i]? = some x → s'.keys[j]? = some y → lt y x = false := by
+  obtain ⟨f0, h⟩ := C15_translated_source_insertionSort_refines_model (stdLess lt) a b ha hb62 s
+  exact ⟨f0, fun fuel hf => ⟨_, h fuel hf, C15_sorted_insertionSort sw a b s hb⟩⟩
+
+/-- headline property on the translated source: heapSort_func as translated sorts the range -/
+theorem C15_translated_source_heapSort_sorted {K V : Type} {lt : K → K → Bool} (sw : StrictWeak lt) (a b : Nat)
+    (s : St K V) (hab : a ≤ b) (hb : b ≤ s.keys.size) (hb62 : b < 2 ^ 62) :
+    ∃ f0, ∀ fuel, f0 ≤ fuel → ∃ s',
+      Got.Generated.AstSortxSort.heapSort_func.run (sortWorld (stdLess lt)) Got.Generated.AstSortxSort.prog fuel
+        [(a : Int), (b : Int)] s = some ([], s') ∧
+      ∀ i j x y, a ≤ i → i < j → j < b → s'.keys[i]? = some x → s'.keys[j]? = some y → lt y x = false :=
+  Got.Lemmas.SortAst.heapSort_translated_sorted sw a b s hab hb hb62
+
+/-- headline property on the translated source, ANY less: heapSort_func as translated permutes the (key, value) pairs,
+    keeps lengths, touches nothing outside `[a,b)` and passes only indices of `[a,b)` to Less/Swap -/
+theorem C15_translated_source_heapSort_perm_pairing {K V : Type} (less : LessFn K V) (a b : Nat) (s : St K V)
+    (hab : a ≤ b) (hbk : b ≤ s.keys.size) (hbv : b ≤ s.vals.size) (hb62 : b < 2 ^ 62) :
+    ∃ f0, ∀ fuel, f0 ≤ fuel → ∃ s',
+      Got.Generated.AstSortxSort.heapSort_func.run (sortWorld less) Got.Generated.AstSortxSort.prog fuel
+        [(a : Int), (b : Int)] s = some ([], s') ∧
+      (s'.keys.zip s'.vals).Perm (s.keys.zip s.vals) ∧
+      s'.keys.size = s.keys.size ∧ s'.vals.size = s.vals.size ∧
+      (∀ k, k < a ∨ b ≤ k → s'.keys[k]? = s.keys[k]? ∧ s'.vals[k]? = s.vals[k]?) ∧
+      ∃ evs, s'.log = evs ++ s.log ∧ ∀ e ∈ evs, match e with
+        | .less i j _ => a ≤ i ∧ i < b ∧ a ≤ j ∧ j < b
+        | .swap i j => a ≤ i ∧ i < b ∧ a ≤ j ∧ j < b :=
+  Got.Lemmas.SortAst.heapSort_translated_perm less a b s hab hbk hbv hb62
+
+example : (Got.Generated.AstSortxSort.insertionSort_func.run (sortWorld (stdLess (fun (x y : Int) => decide (x < y))))
+    Got.Generated.AstSortxSort.prog 50 [0, 4] ({ keys := #[5, 3, 9, 1], vals := #[0, 1, 2, 3], log := [] } : St Int Nat)).map
+      (fun r => (r.2.keys, r.2.vals)) = some (#[1, 3, 5, 9], #[3, 1, 0, 2]) := by decide
+
+example : (sliceByAst 200 (stdLess (fun (x y : Int) => decide (x < y))) #[5, 3, 9, 1, 4] #["a", "b", "c", "d"]).map
+    (fun r => (r.keys, r.vals, lessCount r.log)) = some (#[1, 3, 5, 9, 4], #["d", "b", "a", "c"], 5) := by decide
+
+/-- **Translator tie, doPivot_func** (ninther / median-of-three pivot choice through calls of medianOfThree_func,
+    `int(uint(lo+hi)>>1)`, the four scan loops, the two `for { … break … }` loops, the bool local `protect`, the three
+    duplicate probes, two results): the translated source returns the model's `(midlo, midhi)` and final state. -/
+theorem C15_translated_source_doPivot_refines_model {K V : Type} (less : LessFn K V) (lo hi : Nat)
+    (h : lo + 3 ≤ hi) (hhi : hi < 2 ^ 62) (s : St K V) :
+    ∃ f0, ∀ fuel, f0 ≤ fuel →
+      Got.Generated.AstSortxSort.doPivot_func.run (sortWorld less) Got.Generated.AstSortxSort.prog fuel
+        [(lo : Int), (hi : Int)] s =
+      some ([(((doPivot less lo hi s).1 : Nat) : Int), (((doPivot less lo hi s).2.1 : Nat) : Int)], (doPivot less lo hi s).2.2) := by
+  refine Got.Lemmas.SortAst.run_of_FnRuns rfl rfl ?_
+  have e : List.map wrap [(lo : Int), (hi : Int)] = [(lo : Int), (hi : Int)] := by
+    simp (disch := omega) only [List.map, Got.Lemmas.SortAst.wrap_eq]
+  rw [e]
+  exact Got.Lemmas.SortAst.pivotSpec less lo hi s h hhi
+
+/-- C15 (d) doPivot post-condition for the translated source: with the standard closure over a strict weak order the
+    translated doPivot_func returns `lo ≤ midlo < midhi ≤ hi` and leaves `[lo,midlo) ≤ p`, `[midlo,midhi) ~ p`,
+    `[midhi,hi) ≥ p` for the pivot value `p` found at `midlo`. -/
+theorem C15_translated_source_doPivot_post {K V : Type} {lt : K → K → Bool} (sw : StrictWeak lt) (lo hi : Nat) (s : St K V)
+    (h : lo + 3 ≤ hi) (hsz : hi ≤ s.keys.size) (hhi : hi < 2 ^ 62) :
+    ∃ f0, ∀ fuel, f0 ≤ fuel → ∃ (mlo mhi : Nat) (s' : St K V),
+      Got.Generated.AstSortxSort.doPivot_func.run (sortWorld (stdLess lt)) Got.Generated.AstSortxSort.prog fuel
+        [(lo : Int), (hi : Int)] s = some ([(mlo : Int), (mhi : Int)], s') ∧
+      lo ≤ mlo ∧ mlo < mhi ∧ mhi ≤ hi ∧
+      ∃ p, s'.keys[mlo]? = some p ∧
+        (∀ k x, lo ≤ k → k < mlo → s'.keys[k]? = some x → lt p x = false) ∧
+        (∀ k x, mlo ≤ k → k < mhi → s'.keys[k]? = some x → lt p x = false ∧ lt x p = false) ∧
+        (∀ k x, mhi ≤ k → k < hi → s'.keys[k]? = some x → lt x p = false) :=
+  Got.Lemmas.SortAst.doPivot_translated_post sw lo hi s h hsz hhi
+
+/-- **Translator tie, quickSort_func**: the translated source — loop `for b-a > 12`, depth budget, heapSort_func fallback,
+    doPivot_func, recursion on the smaller side (the function calls itself through the generated program), gap pass and
+    insertionSort_func tail — computes the model's `quickSort`. -/
+theorem C15_translated_source_quickSort_refines_model {K V : Type} (less : LessFn K V)
+    (a b d : Nat) (hab : a ≤ b) (hb : b < 2 ^ 62) (hd : d < 2 ^ 62) (s : St K V) :
+    ∃ f0, ∀ fuel, f0 ≤ fuel →
+      Got.Generated.AstSortxSort.quickSort_func.run (sortWorld less) Got.Generated.AstSortxSort.prog fuel
+        [(a : Int), (b : Int), (d : Int)] s = some ([], quickSort less a b d s) := by
+  refine Got.Lemmas.SortAst.run_of_FnRuns (vs := []) rfl rfl ?_
+  have e : List.map wrap [(a : Int), (b : Int), (d : Int)] = [(a : Int), (b : Int), (d : Int)] := by
+    simp (disch := omega) only [List.map, Got.Lemmas.SortAst.wrap_eq]
+  rw [e]
+  exact Got.Lemmas.SortAst.quickSort_runs _ less (Got.Lemmas.SortAst.callees less) a b d hab hb hd s
+
+/-- **Translator tie, whole call**: SliceBy with the translated maxDepth and quickSort_func interpreted (and through their
+    calls all seven translated functions) is the model's `sliceBy` — final slices and the complete Less/Swap log —
+    whenever `min(len keys, len values) < 2^62`.  Hence every C15 theorem about `sliceBy` is a theorem about the
+    translated source; three of them are restated below. -/
+theorem C15_translated_source_sliceBy_refines_model {K V : Type} (less : LessFn K V) (keys : Array K) (vals : Array V)
+    (hn : min keys.size vals.size < 2 ^ 62) :
+    ∃ f0, ∀ fuel, f0 ≤ fuel → sliceByAst fuel less keys vals = some (sliceBy less keys vals) :=
+  Got.Lemmas.SortAst.sliceByAst_refines less keys vals hn
+
+/-- C15 (b) for the translated source, ANY less function: it terminates, permutes the (key, value) pairs of the common
+    prefix, keeps lengths and everything beyond the prefix, and passes only indices `< n` to less and to the swapper. -/
+theorem C15_translated_source_perm_pairing_prefix {K V : Type} (less : LessFn K V) (keys : Array K) (vals : Array V)
+    (hn : min keys.size vals.size < 2 ^ 62) :
+    ∃ f0, ∀ fuel, f0 ≤ fuel → ∃ r, sliceByAst fuel less keys vals = some r ∧
+      let n := min keys.size vals.size
+      ((r.keys.toList.take n).zip (r.vals.toList.take n)).Perm ((keys.toList.take n).zip (vals.toList.take n)) ∧
+      r.keys.size = keys.size ∧ r.vals.size = vals.size ∧
+      (∀ k, n ≤ k → r.keys[k]? = keys[k]? ∧ r.vals[k]? = vals[k]?) ∧
+      (∀ e ∈ r.log, match e with
+        | .less i j _ => i < n ∧ j < n
+        | .swap i j => i < n ∧ j < n) := by
+  obtain ⟨f0, h⟩ := C15_translated_source_sliceBy_refines_model less keys vals hn
+  exact ⟨f0, fun fuel hf => ⟨_, h fuel hf, C15_perm_pairing_prefix less keys vals⟩⟩
+
+/-- C15 (d) for the translated source: with `keys[i] < keys[j]` over a strict weak order the common prefix ends sorted. -/
+theorem C15_translated_source_sorted {K V : Type} {lt : K → K → Bool} (sw : StrictWeak lt) (keys : Array K) (vals : Array V)
+    (hn : min keys.size vals.size < 2 ^ 62) :
+    ∃ f0, ∀ fuel, f0 ≤ fuel → ∃ r, sliceByAst fuel (stdLess lt) keys vals = some r ∧
+      ∀ i j x y, i < j → j < min keys.size vals.size → r.keys[i]? = some x → r.keys[j]? = some y → lt y x = false := by
+  obtain ⟨f0, h⟩ := C15_translated_source_sliceBy_refines_model (stdLess lt) keys vals hn
+  exact ⟨f0, fun fuel hf => ⟨_, h fuel hf, C15_sorted sw keys vals⟩⟩
+
+/-- number of comparisons for the translated source, ANY less: at most `9·n·(⌈lg(n+1)⌉ + 1)` calls of `data.Less`. -/
+theorem C15_translated_source_comparisons {K V : Type} (less : LessFn K V) (keys : Array K) (vals : Array V)
+    (hn : min keys.size vals.size < 2 ^ 62) :
+    ∃ f0, ∀ fuel, f0 ≤ fuel → ∃ r, sliceByAst fuel less keys vals = some r ∧
+      ∃ L, min keys.size vals.size + 1 ≤ 2 ^ L ∧ (∀ k', min keys.size vals.size + 1 ≤ 2 ^ k' → L ≤ k') ∧
+        lessCount r.log ≤ 9 * min keys.size vals.size * (L + 1) := by
+  obtain ⟨f0, h⟩ := C15_translated_source_sliceBy_refines_model less keys vals hn
+  obtain ⟨L, h1, h2, _, h4⟩ := C15_comparisons less keys vals
+  exact ⟨f0, fun fuel hf => ⟨_, h fuel hf, L, h1, h2, h4⟩⟩
+
+/-- non-vacuity of the hypotheses: a 14-element call (large enough for doPivot_func and the recursion) -/
+example : ∃ fuel, sliceByAst fuel (stdLess (fun (x y : Int) => decide (x < y)))
+    #[14, 13, 12, 11, 10, 9, 8, 7, 6, 5, 4, 3, 2, 1] #[0, 1, 2, 3, 4, 5, 6, 7, 8, 9, 10, 11, 12, 13] =
+    some (sliceBy (stdLess (fun (x y : Int) => decide (x < y)))
+      #[14, 13, 12, 11, 10, 9, 8, 7, 6, 5, 4, 3, 2, 1] #[0, 1, 2, 3, 4, 5, 6, 7, 8, 9, 10, 11, 12, 13]) := by
+  obtain ⟨f0, h⟩ := C15_translated_source_sliceBy_refines_model (stdLess (fun (x y : Int) => decide (x < y)))
+    #[14, 13, 12, 11, 10, 9, 8, 7, 6, 5, 4, 3, 2, 1] #[0, 1, 2, 3, 4, 5, 6, 7, 8, 9, 10, 11, 12, 13] (by decide)
+  exact ⟨f0, h f0 (Nat.le_refl _)⟩
+
+end TranslatedSource
